@@ -296,7 +296,7 @@ class error_997_visitor(error_visitor.error_visitor):
         """
         seg_data = pyx12.segment.Segment('AK2', '~', '*', ':')
         seg_data.append(err_st.trn_set_id)
-        seg_data.append(err_st.trn_set_control_num.strip())
+        seg_data.append((err_st.trn_set_control_num or '').strip())
         self._write(seg_data)
 
     def __get_st_errors(self, err_st):
